@@ -1,7 +1,7 @@
 (** C10 — property theorems only.  Each is closed by [exact] of a lemma in the proof files and
     followed by [Print Assumptions]. *)
 From V Require Import Base.Util Gql.Ast Writer.Wop Ts.TsType Ts.TsDen
-  C10.Model C10.Spec C10.DenLemmas C10.Decide C10.Proofs C10.Proofs3 C10.Proofs2 C10.JsdocProofs C10.NameProofs C10.ResolverProofs.
+  C10.Model C10.Spec C10.DenLemmas C10.Decide C10.Proofs C10.Proofs3 C10.Proofs2 C10.JsdocProofs C10.NameProofs C10.ResolverProofs C10.WrapGen C10.ResolverArgs C10.ResolverDen.
 
 (** [[alias T in namespace t]] = Ref_t(T): whenever the TypeScript reading of the alias the schema
     declaration exports for [T] in the namespace of target [t] decides membership of a value, it
@@ -54,7 +54,7 @@ Print Assumptions C10_jsdoc_wellformed.
 
 (** local names: distinct types get distinct local names, a local name is never an identifier of
     a scalar's TypeScript type (guard: the bag does not contain both i and __tmp_i) nor a keyword
-    the printer emits (guard: no type is named like one) *)
+    the printer emits (unconditionally, since /repo d4bb3a6 adds them to the bag) *)
 Theorem C10_local_names_injective : forall bag a b,
   starts_with UNSCO a = false -> starts_with UNSCO b = false ->
   local_name bag a = local_name bag b -> a = b.
@@ -65,8 +65,7 @@ Theorem C10_local_names_no_capture : forall bag n, bag_ok bag = true -> mem (loc
 Proof. exact local_name_not_in_bag. Qed.
 Print Assumptions C10_local_names_no_capture.
 
-Theorem C10_local_names_not_keyword : forall bag n,
-  mem n EMITTED_KEYWORDS = false -> mem (local_name bag n) EMITTED_KEYWORDS = false.
+Theorem C10_local_names_not_keyword : forall bag n, mem (local_name bag n) EMITTED_KEYWORDS = false.
 Proof. exact local_name_not_keyword. Qed.
 Print Assumptions C10_local_names_not_keyword.
 
@@ -77,12 +76,13 @@ Theorem C10_local_names_capture_refuted :
 Proof. exact local_names_capture_refuted. Qed.
 Print Assumptions C10_local_names_capture_refuted.
 
-Theorem C10_keyword_name_refuted :
+Theorem C10_keyword_name_renamed :
   wf_schema keyword_opts keyword_doc = true /\
   exists ms m, namespace_members keyword_opts keyword_doc OpOut = Ok ms /\ In (Some m) ms /\
-               mem (m_local m) EMITTED_KEYWORDS = true.
-Proof. exact keyword_name_refuted. Qed.
-Print Assumptions C10_keyword_name_refuted.
+               iname (m_name m) = s "null" /\ m_local m = s "__tmp_null" /\
+               mem (m_local m) EMITTED_KEYWORDS = false.
+Proof. exact keyword_name_renamed. Qed.
+Print Assumptions C10_keyword_name_renamed.
 
 (** resolvers: the entry of [Resolvers<Context>] under a type's name is that type's resolver type,
     which is, kind by kind, the reference *)
@@ -129,3 +129,38 @@ Theorem C10_resolver_scope_refuted :
   exists d, resolver_structure default_ropts 0 context_doc = Ok d /\ resolver_scope_ok default_ropts d = false.
 Proof. exact resolver_scope_refuted. Qed.
 Print Assumptions C10_resolver_scope_refuted.
+
+(** resolvers, denotationally.  [Args]: read against the schema declaration's `__ResolverInput`
+    namespace, the Args type of a field resolver admits exactly the records giving every declared
+    argument a value of Ref_ResolverInput of its type *)
+Theorem C10_resolver_args_exact_iff : forall o doc ms,
+  wf_schema o doc = true -> namespace_members o doc ResIn = Ok ms ->
+  forall ro args v, args_wf doc args = true ->
+  (In_type (res_in_env ms) (arguments_definition_to_ts ro args) v <-> args_ref o doc args v = true)
+  /\ (NotIn_type (res_in_env ms) (arguments_definition_to_ts ro args) v <-> args_ref o doc args v = false).
+Proof. exact args_exact_iff. Qed.
+Print Assumptions C10_resolver_args_exact_iff.
+
+(** under the local denotation [mt] of the resolvers file (module aliases unfolded, [Omit] over exact
+    object types, function types opaque; no plugin): every module alias [type T = …] denotes the
+    resolver-side reference of T — objects: exactly the fields, each in Ref_ResolverOutput of its
+    type, no __typename; interfaces/unions: the union over their possible object types;
+    scalars/enums: Ref_ResolverOutput *)
+Theorem C10_resolver_alias_exact_iff : forall o ro doc ms d,
+  wf_schema o doc = true -> namespace_members o doc ResOut = Ok ms -> resolver_structure ro 0 doc = Ok d ->
+  forall td pp v, In td (typedefs doc) -> is_input_def td = false ->
+  ((exists f, mt ms (module_aliases d) f (TVar (tname td) pp) v = Some true) <-> resolver_ref o doc (tname td) v = true)
+  /\ ((exists f, mt ms (module_aliases d) f (TVar (tname td) pp) v = Some false) <-> resolver_ref o doc (tname td) v = false).
+Proof. exact module_alias_exact_iff. Qed.
+Print Assumptions C10_resolver_alias_exact_iff.
+
+(** … and the Result type of a field resolver is the wrapper-exact type over them *)
+Theorem C10_resolver_result_exact_iff : forall o ro doc ms d,
+  wf_schema o doc = true -> namespace_members o doc ResOut = Ok ms -> resolver_structure ro 0 doc = Ok d ->
+  forall ty v, result_wf doc ty = true ->
+  ((exists f, mt ms (module_aliases d) f (get_ts_type_of_type tvar_id ty) v = Some true)
+     <-> wrap_den (resolver_ref o doc) v (is_nonnull ty) (ty_norm ty) = true)
+  /\ ((exists f, mt ms (module_aliases d) f (get_ts_type_of_type tvar_id ty) v = Some false)
+     <-> wrap_den (resolver_ref o doc) v (is_nonnull ty) (ty_norm ty) = false).
+Proof. exact result_exact_iff. Qed.
+Print Assumptions C10_resolver_result_exact_iff.
